@@ -2,9 +2,9 @@
 # Regression sweep: run every saved seeded change (seeded/*/patch.diff) against the
 # check(s) of its property; one line per seed in <outfile>.summary.
 # usage: tools/seedsweep.sh <outfile> [name-glob]
-out=${1:-/verif/.work/seedsweep.out}; glob=${2:-*}
+VD=${VERIF_DIR:-/verif}; out=${1:-$VD/.work/seedsweep.out}; glob=${2:-*}
 : > $out; : > $out.summary
-cd /verif
+cd $VD
 for d in seeded/$glob/; do
   n=$(basename $d)
   [ -f $d/patch.diff ] || continue
